@@ -105,6 +105,8 @@ def p1_programs():
         out.append(fn("exact", [], [T(rx), A]))
     for f in ("min_length", "max_length"):
         out += [fn(f, [], [A, T(2)]), fn(f, [], [B, T(1)]), fn(f, [], [A, T(0)]), fn(f, [], [fn("concat", [], [A, B]), T(3)])]
+    for x in (A, ABSENT, V):
+        out += [["==", fn("length", [], [x]), T(0)], ["==", fn("length", [], [x]), T(4)], fn("above", [], [fn("length", [], [x]), T(1)]), fn("below", [], [fn("length", [], [x]), T(1)])]
     out += [fn("any"), fn("any", [], [fn("headers")]), fn("any", [], [fn("variables")]), fn("any", [], [T("abc")]), fn("any", [], [fn("headers"), T("abc")]),
             fn("any", [], [fn("headers"), T("10")]), fn("any", [], [fn("variables"), T("abc")]), fn("any", [], [fn("headers"), B])]
     out += [["==", fn("count_headers"), T(3)], ["==", fn("count_headers_in_line"), T(3)], ["==", fn("count_headers_in_line"), fn("count_headers")],
